@@ -134,6 +134,10 @@ CANARIES = [
     ('c06-union-all-swapped', 'C06', 'mindsdb_sql/render/sqlalchemy_render.py', "            func = sa.union if from_table.unique else sa.union_all", "            func = sa.union_all if from_table.unique else sa.union", 'C06.setop.UNION'),
     ('c06-operator-table', 'C06', 'mindsdb_sql/render/sqlalchemy_render.py', '                ">=": "__ge__",\n                "<=": "__le__",', '                ">=": "__gt__",\n                "<=": "__le__",', 'C06.op.GEQ'),
     ('c06-nulls-swapped', 'C06', 'mindsdb_sql/render/sqlalchemy_render.py', "                if f.nulls.upper() == 'NULLS FIRST':\n                    col0 = sa.nullsfirst(col0)", "                if f.nulls.upper() == 'NULLS FIRST':\n                    col0 = sa.nullslast(col0)", 'C06.order.select'),
+    ('c02-none-ok', 'C02', 'mindsdb_sql/__init__.py', "    if ast is None:\n\n        eh", "    if ast is None and dialect != 'mindsdb':\n\n        eh", 'C02.api.parse_sql'),
+    ('c02-new-keyerror', 'C02', 'mindsdb_sql/parser/dialects/mindsdb/parser.py', "        params = getattr(p, 'kw_parameter_list', {})\n        from_query = getattr(p, 'select', None)", "        params = getattr(p, 'kw_parameter_list', {})\n        owner = params['owner'] if hasattr(p, 'kw_parameter_list') else None\n        from_query = getattr(p, 'select', None)", 'C02.'),
+    ('c02-limit-negative', 'C02', 'mindsdb_sql/parser/dialects/mindsdb/parser.py', "    @_('TRUE')\n    def constant(self, p):\n        return Constant(value=True)", "    @_('TRUE')\n    def constant(self, p):\n        return Constant(value=[True][len(p.TRUE) - 4])", None),
+    ('c02-float-of-text', 'C02', 'mindsdb_sql/parser/dialects/mindsdb/parser.py', "    @_('FALSE')\n    def constant(self, p):\n        return Constant(value=False)", "    @_('FALSE')\n    def constant(self, p):\n        return Constant(value=bool(int(p.FALSE)))", 'C02.action.mindsdb.constant'),
 ]
 
 
